@@ -37,7 +37,7 @@ struct GMsg {
   bool fault_hit = false;    // an injected fault fired inside its injector
   std::vector<GRcpt> rc;     // valid from PREPROCESSED
   int64_t birth = 0;         // mtime of info/n
-  bool info_unlinked_by_send = false;
+  bool info_unlinked_by_send = false; int eliminated_in = -1;
   int64_t t_published = -1, t_noticed = -1;   // C16
   std::string bounce_of;     // for bounces queued by qmail-send: logical id of the original
   int send_incarnation = 0;  // incarnation of qmail-send that preprocessed it
